@@ -74,17 +74,24 @@ def build_signal(spec, band):
     return sig
 
 
+def _val(rng, palette, lo=0.05, hi=0.95):
+    """A value from the usual palette, or (30 %) an arbitrary two-decimal value in range."""
+    if rng.random() < 0.3:
+        return round(rng.uniform(lo, hi), 2)
+    return rng.choice(palette)
+
+
 def gen_thresholds(rng, method, shorthand=False):
     """A valid threshold dict for `method` (None = use defaults)."""
     if method == 'cycles':
-        full = {'amp_fraction_threshold': rng.choice((0.0, 0.1, 0.2, 0.3)),
-                'amp_consistency_threshold': rng.choice((0.2, 0.4, 0.5, 0.6)),
-                'period_consistency_threshold': rng.choice((0.3, 0.5, 0.6, 0.7)),
-                'monotonicity_threshold': rng.choice((0.5, 0.6, 0.7, 0.8)),
-                'min_n_cycles': rng.choice((1, 2, 3, 4))}
+        full = {'amp_fraction_threshold': _val(rng, (0.0, 0.1, 0.2, 0.3), 0.0, 0.5),
+                'amp_consistency_threshold': _val(rng, (0.2, 0.4, 0.5, 0.6), 0.1, 0.8),
+                'period_consistency_threshold': _val(rng, (0.3, 0.5, 0.6, 0.7), 0.1, 0.8),
+                'monotonicity_threshold': _val(rng, (0.5, 0.6, 0.7, 0.8), 0.3, 0.9),
+                'min_n_cycles': rng.choice((1, 2, 3, 4, 5))}
     else:
-        full = {'burst_fraction_threshold': rng.choice((0.3, 0.5, 0.8, 1)),
-                'min_n_cycles': rng.choice((1, 2, 3, 4))}
+        full = {'burst_fraction_threshold': _val(rng, (0.3, 0.5, 0.8, 1), 0.1, 1.0),
+                'min_n_cycles': rng.choice((1, 2, 3, 4, 5))}
     keys = [k for k in full if rng.random() < 0.75]
     out = {k: full[k] for k in keys}
     if shorthand:
@@ -98,10 +105,12 @@ def gen_burst_kwargs(rng, method):
         return rng.choice((None, {}))
     out = {}
     if rng.random() < 0.6:
-        lo = rng.choice((0.5, 0.8, 1, 1.2))
-        out['amp_threshes'] = [lo, lo + rng.choice((0.3, 0.5, 1))]
+        lo = _val(rng, (0.5, 0.8, 1, 1.2), 0.3, 1.5)
+        out['amp_threshes'] = [lo, round(lo + _val(rng, (0.3, 0.5, 1), 0.1, 1.2), 2)]
     if rng.random() < 0.4:
-        out['min_n_cycles'] = rng.choice((1, 2, 3, 4))
+        out['min_n_cycles'] = rng.choice((1, 2, 3, 4, 5))
+    if rng.random() < 0.15:
+        out['min_burst_duration'] = rng.choice((0.1, 0.2, 0.3))
     if rng.random() < 0.2:
         out['filter_kwargs'] = {'n_cycles': rng.choice((3, 4))}
     if not out and rng.random() < 0.5:
@@ -113,9 +122,11 @@ def gen_find_extrema_kwargs(rng):
     r = rng.random()
     if r < 0.5:
         return None
-    out = {'filter_kwargs': {'n_cycles': rng.choice((3, 3, 4))}}
+    out = {'filter_kwargs': {'n_cycles': rng.choice((3, 3, 4, 4, 5))}}
     if rng.random() < 0.4:
-        out['boundary'] = rng.choice((0, 2, 5))
+        out['boundary'] = rng.choice((0, 1, 2, 5, 10))
+    if rng.random() < 0.15:
+        out['pad'] = False
     return out
 
 
